@@ -224,6 +224,12 @@ func Lock(txDetails []byte, from, to interop.Hash160, amount, until int) {
 		Parent:  from,
 	}
 
+	// lock account must be a new one: the record is written from scratch, so
+	// assets of an already existing account would be lost
+	if storage.Get(ctx, append([]byte{accPrefix}, to...)) != nil {
+		panic("lock account already exists")
+	}
+
 	common.SetSerialized(ctx, append([]byte{accPrefix}, to...), lockAccount)
 
 	result := token.transfer(ctx, from, to, amount, true, details)
